@@ -13,6 +13,14 @@ use crate::trainer::{NgramFeature, SolverType};
 
 use crate::trainer::QUANTIZE_BIT_DEPTH;
 
+/// Verification hook (compiled only with `--cfg vaporetto_verif`): the quantised tag classifier
+/// weights of the last training run as (token, class index, feature name or `bias`, weight);
+/// feature names are `C:<ngram>:<rel>` and `T:<types>:<rel>`.
+#[cfg(vaporetto_verif)]
+#[doc(hidden)]
+pub static VERIF_TAG_LEARNED: std::sync::Mutex<Vec<(String, usize, String, i32)>> =
+    std::sync::Mutex::new(Vec::new());
+
 #[derive(Debug, Eq, Hash, PartialEq)]
 enum TagFeature<'a> {
     CharacterNgram(NgramFeature<&'a str>),
@@ -222,6 +230,17 @@ impl<'a> TagTrainer<'a> {
                         .to_int_unchecked::<i32>()
                 };
             }
+            #[cfg(vaporetto_verif)]
+            for (i, &cls) in model.labels().iter().enumerate() {
+                let _ = i;
+                let class = class_offset + usize::try_from(cls).unwrap();
+                VERIF_TAG_LEARNED.lock().unwrap().push((
+                    token.clone(),
+                    class,
+                    "bias".to_string(),
+                    bias[class],
+                ));
+            }
             for (feature, fid) in feature_ids {
                 match feature {
                     TagFeature::CharacterNgram(NgramFeature {
@@ -239,6 +258,13 @@ impl<'a> TagTrainer<'a> {
                             if weight == 0 {
                                 continue;
                             }
+                            #[cfg(vaporetto_verif)]
+                            VERIF_TAG_LEARNED.lock().unwrap().push((
+                                token.clone(),
+                                class_offset + usize::try_from(cls).unwrap(),
+                                format!("C:{}:{}", ngram, rel_position),
+                                weight,
+                            ));
                             char_ngram_weights
                                 .entry((*ngram, u8::try_from(*rel_position).unwrap()))
                                 .or_insert_with(|| vec![0; n_class])
@@ -260,6 +286,13 @@ impl<'a> TagTrainer<'a> {
                             if weight == 0 {
                                 continue;
                             }
+                            #[cfg(vaporetto_verif)]
+                            VERIF_TAG_LEARNED.lock().unwrap().push((
+                                token.clone(),
+                                class_offset + usize::try_from(cls).unwrap(),
+                                format!("T:{:?}:{}", ngram, rel_position),
+                                weight,
+                            ));
                             type_ngram_weights
                                 .entry((*ngram, u8::try_from(*rel_position).unwrap()))
                                 .or_insert_with(|| vec![0; n_class])
@@ -322,6 +355,8 @@ impl<'a> TagTrainer<'a> {
                 );
             }
         }
+        #[cfg(vaporetto_verif)]
+        VERIF_TAG_LEARNED.lock().unwrap().clear();
         let mut tag_models = vec![];
         liblinear::toggle_liblinear_stdout_output(false);
         let n_tokens = self.examples.len();
